@@ -60,6 +60,19 @@ def run(report, tier, seed, driver, proofs_ok):
             cases.append(("valid", res))
             for _ in range(3):
                 cases.append(damage(rng, res))
+            # the ordinary resource attributes next to Type / Properties (Condition is also the name of an intrinsic function)
+            attrs = {"Condition": "IsProd", "DependsOn": rng.choice(["Other", ["A", "B"]]), "DeletionPolicy": "Retain", "Metadata": {"k": "v"}}
+            pick = {k: attrs[k] for k in rng.sample(sorted(attrs), rng.randrange(1, 4))}
+            if rng.random() < 0.6:
+                pick["Condition"] = "IsProd"
+            items = list(dict(res, **pick).items())
+            rng.shuffle(items)
+            cases.append(("valid-with-attributes", dict(items)))
+            kind, dmg = damage(rng, res)
+            items = list(dict(dmg, **pick).items()) if isinstance(dmg, dict) else None
+            if items:
+                rng.shuffle(items)
+                cases.append((kind, dict(items)))
         for t in ["Custom::Thing", "AWS::Lambda::Function", "AWS::S3::bucket", "aws::s3::bucket", "", "AWS::S3::Bucket ", "AWS::IAM::Roles"]:
             cases.append(("other-type", {"Type": t, "Properties": {"A": "b", "N": {"x": [1, 2]}}}))
         cases.append(("no-type", {"Properties": {"A": "b"}}))
@@ -159,6 +172,9 @@ def run(report, tier, seed, driver, proofs_ok):
         all_classes = list(classes.values()) + [GenericResource, Resource]
         asked_c = rng.sample(all_classes, rng.randrange(0, 3))
         asked_t = rng.sample(list(classes) + ["Custom::Thing", "Nope"], rng.randrange(0, 3))
+        if i % 5 == 0:
+            # a base class stands for everything below it
+            asked_c = [rng.choice([Resource, GenericResource])] + asked_c[:1]
         if damaged_types and rng.random() < 0.7:
             asked_c = [classes[damaged_types[0]]] + asked_c[:1]
             if rng.random() < 0.5:
